@@ -26,6 +26,7 @@ func rulesC04(c *Ctx) {
 	ruleRIBCallers(c)
 	ruleUint128Sites(c)
 	ruleRunElectionTable(c)
+	ruleStoreClientElectionID(c)
 	ruleIsNewMaster(c, "C04")
 }
 
@@ -284,9 +285,16 @@ func ruleElectionSnapshot(c *Ctx) {
 		}
 		return true
 	})
+	// the snapshot variable is bound exactly once, to a fresh getElection() read of this call
+	if sv, ok := snap.(*types.Var); ok && snap != nil {
+		sole, _ := ast.Unparen(soleDefinition(info, fi.Decl, sv)).(*ast.CallExpr)
+		if sole == nil || sole != defCall {
+			defCall = nil
+		}
+	}
 	switch {
 	case defCall == nil || !isMethod(calleeObj(info, defCall), modPath+"/server", "Server", "getElection"):
-		bad = "the snapshot is not taken with the locked getElection() read before the loop"
+		bad = "the snapshot is not a fresh getElection() read taken once, under the lock, before the loop (a cached or conditionally refreshed view misses elections won by other sessions)"
 	case csVar == nil:
 		bad = "the session state is not looked up by the session id"
 	case fields["client"] != cid.Name():
@@ -340,4 +348,85 @@ func ruleRIBCallers(c *Ctx) {
 		c.check(len(bad) == 0 && len(inServer) == 1, rule, fi.Name, "callers inside package server", c.P.pos(fi.Decl.Pos()), "only "+t.allow,
 			fmt.Sprintf("RIB.%s is called from %v inside the server (audited gate: %s only)", t.name, inServer, t.allow))
 	}
+}
+
+// R4.5 / R5.x the id a session announces is recorded as that session's latest,
+// unconditionally: checkElectionForModify compares each operation's id with it.
+func ruleStoreClientElectionID(c *Ctx) {
+	const rule = "SESSION-LATEST-ID"
+	fi := c.need("server", "Server", "storeClientElectionID")
+	if fi == nil {
+		return
+	}
+	info := fi.Pkg.TypesInfo
+	ps := paramObjs(info, fi.Decl)
+	if len(ps) != 2 || ps[0] == nil || ps[1] == nil {
+		c.vanished(rule, fi.Name, "signature", "expected (session id, election id)")
+		return
+	}
+	sid, eid := ps[0], ps[1]
+	recv := recvName(fi)
+	// the session lookup: <state>, <found> := s.cs[id]
+	var stateVar, okVar types.Object
+	inspectNoFuncLit(fi.Decl.Body, func(n ast.Node) bool {
+		as, ok := n.(*ast.AssignStmt)
+		if !ok || len(as.Lhs) != 2 || len(as.Rhs) != 1 {
+			return true
+		}
+		if ie, ok := ast.Unparen(as.Rhs[0]).(*ast.IndexExpr); ok && canonTerm(fi, ie.X) == recv+".cs" && objOfIdent(info, ie.Index) == sid {
+			stateVar, okVar = objOfIdent(info, as.Lhs[0]), objOfIdent(info, as.Lhs[1])
+		}
+		return true
+	})
+	if stateVar == nil || okVar == nil {
+		c.vanished(rule, fi.Name, "session lookup", "no `state, ok := s.cs[id]` lookup")
+		return
+	}
+	ev := func(n ast.Node) []Event {
+		var out []Event
+		inspectNoFuncLit(n, func(m ast.Node) bool {
+			as, ok := m.(*ast.AssignStmt)
+			if !ok || len(as.Lhs) != len(as.Rhs) {
+				return true
+			}
+			for i, l := range as.Lhs {
+				o, p := selectorPath(info, l)
+				if len(p) == 1 && p[0] == "lastElecID" {
+					if o == stateVar && objOfIdent(info, as.Rhs[i]) == eid {
+						out = append(out, Event{Kind: "record", Node: as})
+					} else {
+						out = append(out, Event{Kind: "record-other", Node: as})
+					}
+				}
+			}
+			return true
+		})
+		return out
+	}
+	paths, pe := enumFunc(fi, ev, nil)
+	c.Sites += len(paths)
+	if pe.overflow || len(paths) == 0 {
+		c.undecided(rule, fi.Name, "body", c.P.pos(fi.Decl.Pos()), "path enumeration incomplete")
+		return
+	}
+	bad := ""
+	nStore := 0
+	for _, p := range paths {
+		if p.End == "panic" {
+			continue
+		}
+		found := p.Entails(&FLit{"b:" + varKey(okVar), 2, 2})
+		missing := p.Entails(&FLit{"b:" + varKey(okVar), 2, 1})
+		ret, isB := firstResultBool(info, p)
+		switch {
+		case p.has("record-other"):
+			bad = "something other than the announced id is recorded as the session's latest id: " + p.describe(c.P)
+		case missing && isB && !ret && !p.has("record"):
+		case found && isB && ret && p.count("record") == 1:
+			nStore++
+		default:
+			bad = "for a known session the announced id must be recorded as its latest id on every path (and true returned); unknown session ⇒ false, nothing recorded: " + p.describe(c.P)
+		}
+	}
+	c.check(bad == "" && nStore >= 1, rule, fi.Name, "the announced id becomes the session's latest id, unconditionally", c.P.pos(fi.Decl.Pos()), fmt.Sprintf("%d paths", len(paths)), bad)
 }
